@@ -30,17 +30,106 @@ RULE = ('same program generator as C01; histories biased towards immediate repet
         'Oracle: per command, multiset of script executions (S records of the unified trace) == set predicted by the '
         'reference model (property\'s iff-list; in failing/parallel commands the choice of already-started siblings is '
         'guided by the observation, i.e. must <= observed <= may). Non-trivial: >=3 commands, one that ran nothing and '
-        'one incremental. Distinct: hash of (graph shape, op sequence with per-command run counts).')
+        'one incremental. Distinct: hash of (graph shape, op sequence with per-command run counts). '
+        'Retry layer: a script that fails 1-2 times for an undeclared (transient) reason and is retried with a forced `redo T` by its requester until it '
+        'succeeds in the same run (stdout / $3 / redo-stamp outputs, requested directly or from below another target); the two following '
+        '`redo-ifchange` with nothing changed must not run T: its last build succeeded.')
 ASSUME = ['a content-identical rebuild of a non-checksummed dependency counts as a change (redo\'s rule)',
           'a checksummed dependency whose file was removed by hand may either be settled through its checksum or make its dependents run',
           'reference model rvlib/model.py']
 
 
+RETRY_T = {
+    'stdout': 'echo "gen $n"',
+    'dollar3': 'echo "gen $n" > "$3"',
+    'stamp': 'echo "gen same" > "$3"\nredo-stamp < "$3"',
+}
+
+
+def retry_case(item):
+    """A failure that is retried with success inside the same run: T's script fails `fails` times (a transient error: its cause is
+    not a declared input) and the requester retries with a forced `redo T` until it succeeds, then declares T with redo-ifchange.
+    T's last build succeeded, so by the iff-list nothing gives the next `redo-ifchange` a reason to run it (or anything above it)."""
+    import os
+    from .. import scen, common
+    _, out, fails, where, seed = item
+    t_do = (scen.TRACE_HDR + 'echo "S $1 $$ $PPID" >&9\nn=$(( $(cat "$1.cnt" 2>/dev/null || echo 0) + 1 ))\necho $n > "$1.cnt"\n'
+            'if [ $n -le %d ]; then echo "E $1 $$ 1" >&9; exit 1; fi\n%s\necho "E $1 $$ 0" >&9\n' % (fails, RETRY_T[out]))
+    retry = ' || '.join(['redo T'] * (fails + 1))
+    files = {'T.do': t_do,
+             'all.do': scen.TRACE_HDR + 'echo "S $1 $$ $PPID" >&9\n%s\nredo-ifchange T\necho "RC $1 $$ $?" >&9\ncat T > "$3"\necho "E $1 $$ 0" >&9\n' % retry,
+             'top.do': scen.TRACE_HDR + 'echo "S $1 $$ $PPID" >&9\nredo-ifchange all\ncat all > "$3"\necho "E $1 $$ 0" >&9\n'}
+    pj = scen.Project(files, 'c02r')
+    anoms = []
+    obs = dict(retry_rounds=1, retried_with_success=0, follow_up_commands=0)
+    try:
+        goal = 'top' if where == 'below' else 'all'
+        r1, _ = pj.run(['redo-ifchange', goal])
+        if r1.status != 'exit' or r1.panicked():
+            return dict(verdict='inconclusive', why='first command did not end normally: %s' % r1.status, sample=dict(item=list(item)))
+        ex1 = [l.split(' ')[1] for l in pj.trace_text().split('\n') if l.startswith('S ')]
+        if ex1.count('T') != fails + 1 or not os.path.exists(os.path.join(pj.top, 'T')):
+            return dict(verdict='inconclusive', why='the retry did not take place as planned: %s' % ex1, sample=dict(item=list(item)))
+        obs['retried_with_success'] = 1
+        obs['first_command_rc_%s' % ('zero' if r1.rc == 0 else 'nonzero')] = 1
+        if r1.rc != 0:
+            # (the retried target is still taken for failed: the requester's redo-ifchange T is refused.  Counted; what this check
+            #  judges is the next run.)
+            obs['declaring_the_rebuilt_target_refused_in_the_same_run'] = 1
+        for k in range(2):
+            open(pj.trace, 'w').close()
+            r2, _ = pj.run(['redo-ifchange', goal])
+            if r2.status != 'exit' or r2.panicked():
+                return dict(verdict='inconclusive', why='follow-up did not end normally', sample=dict(item=list(item)))
+            obs['follow_up_commands'] += 1
+            ex2 = [l.split(' ')[1] for l in pj.trace_text().split('\n') if l.startswith('S ')]
+            if 'T' in ex2:
+                anoms.append(dict(key='overbuild:retried-with-success-in-the-same-run:run-%d-after' % (k + 1),
+                                  what='T failed %d time(s) and was then built with success in the same run (%s); the next `redo-ifchange %s` (nothing changed) ran %s'
+                                       % (fails, retry, goal, ex2)))
+                break
+            if r1.rc == 0 and ex2:
+                anoms.append(dict(key='overbuild:above-a-target-retried-with-success', what='nothing changed, yet %s ran' % ex2))
+                break
+    finally:
+        pj.close()
+    res = dict(verdict='violated' if anoms else 'held', nontrivial=obs['retried_with_success'] > 0 and obs['follow_up_commands'] > 0, shape=common.shash(list(item)),
+               sample=dict(kind='retry', out=out, fails=fails, where=where), obs=obs, sets=dict(retry_shapes=['%s/%d/%s' % (out, fails, where)]))
+    if anoms:
+        res['violations'] = anoms[:2]
+        res['replay'] = dict(kind='retry', item=list(item))
+    return res
+
+
+class Dispatch:
+    def __init__(self, hist):
+        self.hist = hist
+
+    def __call__(self, item, **kw):
+        if isinstance(item, (tuple, list)) and item and item[0] == 'retry':
+            return retry_case(tuple(item))
+        return self.hist(item, **kw)
+
+
 def main(tier):
     n, budget = (240, 60) if tier == 'quick' else (6000, 780)
-    return histcheck.run(PROP, tier, CASE, histcheck.seeds_for(PROP, tier, n), 'exploration', RULE, ASSUME, budget, floor=20)
+    extra = [('retry', out, fails, where, rep) for rep in range(1 if tier == 'quick' else 4)
+             for out in ('stdout', 'dollar3', 'stamp') for fails in (1, 2) for where in ('direct', 'below')]
+    return histcheck.run(PROP, tier, Dispatch(CASE), extra + histcheck.seeds_for(PROP, tier, n), 'exploration', RULE, ASSUME, budget, floor=20)
 
 
 def replay(path):
+    import json
+    d = json.load(open(path))
+    if d['replay'].get('kind') == 'retry':
+        from .. import common
+        common.ensure_built()
+        r = retry_case(tuple(d['replay']['item']))
+        print(r.get('verdict'), r.get('violations'))
+        common.cleanup_scratch()
+        if r.get('verdict') == 'violated':
+            print('VIOLATION property=%s replay=%s' % (PROP, path))
+            return 1
+        return 0
     from ..replay import replay_history
     return replay_history(PROP, path, None)
